@@ -8,6 +8,7 @@ package counter
 import (
 	"fmt"
 	"os"
+	"strings"
 	"testing"
 
 	"golang.org/x/telemetry/internal/verifshim/ref"
@@ -63,6 +64,47 @@ func TestVerifC02Counter(t *testing.T) {
 			res.Class("off/" + pre)
 			w.teardown()
 		}
+	}
+	// The mode is switched off while the process runs: from then on nothing may be created
+	// or changed, in particular not next week's file at rotation.
+	for _, first := range []string{"local", "on 2024-01-01", "<absent>"} {
+		w := zzvNewWorld(base, "")
+		if first != "<absent>" {
+			os.WriteFile(w.dir+"/mode", []byte(first), 0o666)
+		}
+		f := w.newProc()
+		c := w.newCounter(f, "a")
+		f.rotate1()
+		c.Add(1)
+		os.WriteFile(w.dir+"/mode", []byte("off 2024-01-04"), 0o666)
+		before := ref.Snapshot(w.dir)
+		func() {
+			defer func() {
+				if r := recover(); r != nil {
+					res.Violate("mode-off-panic", fmt.Sprintf("counter API panics after the mode was switched off: %v", r), nil)
+				}
+			}()
+			w.now = w.now.AddDate(0, 0, 7) // past the recorded end
+			f.rotate1()
+			c.Add(2)
+			w.newCounter(f, "b").Add(4)
+			w.now = w.now.AddDate(0, 0, 7)
+			f.rotate1()
+			c.Add(8)
+		}()
+		after := ref.Snapshot(w.dir)
+		res.Evaluations++
+		var changed []string
+		for _, d := range before.Diff(after) {
+			if strings.HasPrefix(d, "created ") || strings.HasPrefix(d, "removed ") {
+				changed = append(changed, d)
+			}
+		}
+		if len(changed) > 0 {
+			res.Violate("mode-off-while-running-wrote", fmt.Sprintf("mode switched from %q to off while running, yet after the next rotation: %v", first, changed), map[string]any{"first_mode": first})
+		}
+		res.Class("off-while-running/" + first)
+		w.teardown()
 	}
 	res.Transitions = res.Evaluations
 	res.States = res.Evaluations
